@@ -696,7 +696,50 @@ func (f *Frame) flow(in map[*ssa.BasicBlock][]*edgeIn, from, to *ssa.BasicBlock,
 			return
 		}
 	}
+	// a loop latch (a join whose only successor is the back edge, holding just phis and arithmetic:
+	// the "i++" block) is run once per incoming edge instead of on the merged state: the
+	// invariant-preservation obligations then come per path, free of merged (ite) values
+	if len(to.Preds) > 1 && f.loops[to] == nil && len(to.Succs) == 1 && isBack(to, to.Succs[0]) && f.loops[to.Succs[0]] != nil && latchOnly(to) && !st.Dead && !st.PC.IsFalse() {
+		sc, si := f.cur, f.curIdx
+		f.cur = to
+		for _, instr := range to.Instrs {
+			if phi, ok := instr.(*ssa.Phi); ok {
+				f.regs[phi] = f.val(phi.Edges[predIndex(to, from)])
+			}
+		}
+		ok := true
+		for i, instr := range to.Instrs {
+			f.curIdx = i
+			if _, isPhi := instr.(*ssa.Phi); isPhi {
+				continue
+			}
+			if _, isJ := instr.(*ssa.Jump); isJ {
+				break
+			}
+			if !f.step(st, instr) || st.PC.IsFalse() {
+				ok = false
+				break
+			}
+		}
+		f.cur, f.curIdx = sc, si
+		if ok {
+			f.closeLoop(f.loops[to.Succs[0]], to, st)
+		}
+		return
+	}
 	in[to] = append(in[to], &edgeIn{from: from, st: st})
+}
+
+// latchOnly: the block consists of phis, debug references, integer arithmetic and a jump.
+func latchOnly(b *ssa.BasicBlock) bool {
+	for _, instr := range b.Instrs {
+		switch instr.(type) {
+		case *ssa.Phi, *ssa.DebugRef, *ssa.BinOp, *ssa.Jump:
+		default:
+			return false
+		}
+	}
+	return true
 }
 
 // returnOnly: the block consists of phis, debug references and a return.
